@@ -202,3 +202,15 @@ def frame_obligations(repo):
         ob("%s-does-not-write-what-%s-reads-or-writes" % (a, b), not (wa & (rb | wb)), "overlap %s" % sorted(wa & (rb | wb)))
         ob("%s-does-not-write-what-%s-reads-or-writes" % (b, a), not (wb & (ra | wa)), "overlap %s" % sorted(wb & (ra | wa)))
     return out
+
+
+def schema_obligations(repo):
+    """schema.sql consists of CREATE TABLE / VIEW / INDEX statements (and PRAGMAs) only: running it on a database
+    without tables yields exactly the schema's tables, all empty (what the model of executescript in load_data assumes)."""
+    import re
+    text = open(os.path.join(repo, "spowtd", "schema.sql")).read()
+    text = re.sub(r"--[^\n]*", " ", text)
+    stmts = [t.strip() for t in text.split(";") if t.strip()]
+    bad = [t.split("\n")[0][:60] for t in stmts if not re.match(r"(CREATE\s+(TABLE|VIEW|(UNIQUE\s+)?INDEX)|PRAGMA)\b", t, re.I)]
+    return [{"name": "schema:only-create-table-view-index-pragma", "status": "proved" if stmts and not bad else "refuted",
+             "backend": "SQL text inspection", "seconds": 0.0, "note": "%d statements; other: %r" % (len(stmts), bad[:3])}]
